@@ -10,19 +10,25 @@ package fronthttp
 // context.Canceled did so under a context that was still alive, so every "has the context ended?" branch of the
 // library took its other arm.
 //
-// This file adds a second batch of cases (worlds of their own, drawn and harvested like those of the fuzz batch), each
-// serving ctxEndPerCase requests that are valid as drawn:
+// This file adds, after the storage-error sweep of every (case, router), ctxEndPerCase requests that are valid as
+// drawn and whose context ends at a drawn position:
 //
-//   - kinds: the context is cancelled at the k-th yield point of the request, its deadline passes at the k-th yield
-//     point, it is already cancelled / already expired when the request arrives;
-//   - points: the yield points of internal/sched - every span the library opens and closes (about 110 functions), the
-//     entrance of every storage call, every getter of the client and of the auth request. A probe request of the same
-//     template is served under sched.Trace first (and judged like any other request); k is drawn from its trace, two
-//     times in three among the storage entrances, otherwise anywhere. sched.Preempt parks the disturbed request at its
-//     k-th point, the context is ended there and the request is released: a forced position, no sleeps;
+//   - kinds: the context is cancelled at a point of the request, its deadline passes at a point of the request, it is
+//     already cancelled / already expired when the request arrives;
+//   - positions: every span the library opens and closes (about 110 functions of pkg/op) is a point. The check
+//     registers an OpenTelemetry TracerProvider of its own whose spans look for an actor in the context they are
+//     started with (the request context, which the library hands down): the actor counts the points and, at the k-th,
+//     ends the context - on the goroutine of the request, synchronously, nothing else running: a forced position
+//     without goroutines or sleeps. A request whose context carries no actor pays one Value look-up per span.
+//     A probe request of the same template is served first with a recording actor (and judged like any other
+//     request); its span points and its journaled storage calls, merged by the event counter, are the trace the
+//     position is drawn from - two times in three the entrance of one of its storage calls, otherwise any span point;
 //   - what the storage does once the context has ended: oblivious (it goes on answering; vstore's own device look-up
-//     checks ctx.Err() like the repository's example storage does), every call from then on answers ctx.Err(), or
-//     answers an error that wraps it (the way database/sql drivers report it) - vstore.FaultPlan{From: 1}.
+//     checks ctx.Err() like the repository's example storage does), or every call from the n-th after the end on
+//     answers ctx.Err(), bare or wrapped the way database/sql drivers report it (vstore.FaultPlan{From: n}). "The
+//     context ends at the entrance of storage call M" is: it ends at the last span point before M and the storage
+//     reports it from M on (the calls in between are answered as if nothing had happened; the library itself looks at
+//     no context in between - and where a changed library does, that is a storage some of whose methods do not).
 //
 // The oracle is the structural one of the statement (judge), unchanged: no panic, one well-formed response, every
 // WriteHeader code valid, nothing mutating after an error answer. WHICH answer a handler gives to a peer that has
@@ -33,25 +39,25 @@ import (
 	"fmt"
 	"net/http"
 	"strings"
+	"sync"
 	"time"
 
-	"verif/internal/ev"
+	"go.opentelemetry.io/otel"
+	"go.opentelemetry.io/otel/trace"
+	"go.opentelemetry.io/otel/trace/noop"
+
 	"verif/internal/mon"
 	"verif/internal/opdrv"
-	"verif/internal/sched"
 	"verif/internal/vstore"
 )
 
 const (
-	streamCtxEnd                    = 102 // ev.CaseRand stream of the positions / kinds
-	streamCtxWorld                  = 103 // ev.CaseRand stream of the world and its requests
-	ctxEndPerCase                   = 16  // disturbed requests per (case, router); the at-point kinds are preceded by a probe each
-	ctxCasesQuick, ctxCasesThorough = 200, 3000
-	// deadline-at-point: the deadline of the request context. The request is parked at its point until the timer has
+	streamCtxEnd  = 102 // ev.CaseRand stream of this part (the draws of the fuzz batch and of the sweep stay what they were)
+	ctxEndPerCase = 8   // disturbed requests per (case, router); all but the on-arrival ones are preceded by a probe
+	// deadline-at-point: the deadline of the request context. The request waits at its point until the timer has
 	// fired, so the position is forced as long as the point is reached within this span; a request that was slower is
-	// counted (deadline-fired-before-the-point) - the verdict does not depend on which of the two happened.
-	ctxDeadline = 40 * time.Millisecond
-	ctxPatience = 20 * time.Second // sched.Preempt: ending a context cannot block; expiry = inconclusive
+	// counted (deadline fired before the point) - the verdict does not depend on which of the two happened.
+	ctxDeadline = 20 * time.Millisecond
 )
 
 var (
@@ -69,18 +75,107 @@ var (
 	}
 	// the last storage call of a long chain: met by a handful of requests at quick (counted), mandatory at thorough
 	ctxMandatoryReportsThorough = []string{"authorize|CreateAuthRequest", "end_session|TerminateSession", "token|DeleteAuthRequest", "callback|SaveAuthCode"}
-	ctxPointKinds = []string{"storage", "span", "end", "client"}
+	ctxPositions                = []string{"span", "end", "storage", "arrival"}
 )
+
+// ---------- the library's spans as positions ----------
+
+type ctxActorKey struct{}
+
+// ctxActor travels in the request context; the spans the library starts under that context call point.
+type ctxActor struct {
+	mu     sync.Mutex
+	n      int
+	at     int               // index of the point at which fire runs (-1 = never)
+	fire   func(name string) // runs on the goroutine that passes the point
+	record bool
+	names  []string
+	seqs   []int64 // mon.Now() at each point: orders the points against the journal of the storage
+}
+
+func (a *ctxActor) point(name string) {
+	a.mu.Lock()
+	k := a.n
+	a.n++
+	if a.record {
+		a.names = append(a.names, name)
+		a.seqs = append(a.seqs, mon.Now())
+	}
+	var f func(string)
+	if k == a.at {
+		f = a.fire
+	}
+	a.mu.Unlock()
+	if f != nil {
+		f(name)
+	}
+}
+
+type spanProvider struct{ noop.TracerProvider }
+
+func (spanProvider) Tracer(string, ...trace.TracerOption) trace.Tracer { return spanTracer{} }
+
+type spanTracer struct{ noop.Tracer }
+
+func (spanTracer) Start(ctx context.Context, name string, _ ...trace.SpanStartOption) (context.Context, trace.Span) {
+	if a, _ := ctx.Value(ctxActorKey{}).(*ctxActor); a != nil {
+		a.point("span:" + name)
+		return ctx, actorSpan{a: a, name: name}
+	}
+	return ctx, noop.Span{}
+}
+
+type actorSpan struct {
+	noop.Span
+	a    *ctxActor
+	name string
+}
+
+func (s actorSpan) End(...trace.SpanEndOption) { s.a.point("end:" + s.name) }
+
+var spansOnce sync.Once
+
+// installSpans registers the provider process-wide (the library's package-level tracers delegate to it from then on).
+func installSpans() { spansOnce.Do(func() { otel.SetTracerProvider(spanProvider{}) }) }
+
+// ---------- the trace of a probe ----------
+
+// tracePoint is one position of a probe request: a span point, or the entrance of a storage call.
+type tracePoint struct {
+	name     string
+	span     int // span points: index among the span points; storage calls: index of the last span point before (-1 = none)
+	sincePrv int // storage calls: number of storage calls between that span point and this call
+}
+
+func mergeTrace(a *ctxActor, journal []vstore.Entry) []tracePoint {
+	var out []tracePoint
+	j := 0
+	since := 0
+	for i := 0; i <= len(a.names); i++ {
+		// storage calls journaled before span point i (after span point i-1)
+		for j < len(journal) && (i == len(a.names) || journal[j].Seq <= a.seqs[i]) {
+			out = append(out, tracePoint{name: "storage:" + journal[j].Method, span: i - 1, sincePrv: since})
+			since++
+			j++
+		}
+		if i < len(a.names) {
+			out = append(out, tracePoint{name: a.names[i], span: i})
+			since = 0
+		}
+	}
+	return out
+}
 
 // ctxEndLit is the literal description of where and how the context of a request ended (part of the witness).
 type ctxEndLit struct {
 	Kind       string   `json:"kind"`
 	Storage    string   `json:"storage_once_the_context_has_ended"`
-	K          int      `json:"yield_point_index"` // 0-based index among the yield points of the request; -1 = on arrival
-	Planned    string   `json:"point_of_that_index_in_the_probe,omitempty"`
-	ProbeTrace []string `json:"yield_points_of_the_probe_request,omitempty"`
+	K          int      `json:"span_point_index"` // 0-based index among the span points of the request; -1 = before the handler is called
+	From       int      `json:"storage_reports_it_from_its_nth_call_after_the_end_on,omitempty"`
+	Target     string   `json:"position_aimed_at,omitempty"`
+	ProbeTrace []string `json:"positions_of_the_probe_request,omitempty"`
 	Reached    bool     `json:"point_reached"`
-	At         string   `json:"reached_point,omitempty"`
+	At         string   `json:"context_ended_at,omitempty"`
 	Early      bool     `json:"deadline_fired_before_the_point,omitempty"`
 	EndSeq     int64    `json:"context_ended_at_seq,omitempty"`
 }
@@ -93,8 +188,8 @@ func ctxEndMandatory(rn string, thorough bool) []string {
 	for _, s := range ctxStorage {
 		out = append(out, "http:ctx-end:storage:"+s+":"+rn)
 	}
-	for _, p := range ctxPointKinds {
-		out = append(out, "http:ctx-end:at-point-kind:"+p+":"+rn)
+	for _, p := range ctxPositions {
+		out = append(out, "http:ctx-end:position:"+p+":"+rn)
 	}
 	for _, p := range ctxMandatoryReports {
 		out = append(out, "http:ctx-end:reported-by:"+p+":"+rn)
@@ -114,43 +209,12 @@ func pointKind(name string) string {
 	if i := strings.IndexByte(name, ':'); i > 0 {
 		return name[:i]
 	}
-	return "other"
-}
-
-// runCtxCase: one world, harvested, then the context-end sweep (once per router with the same streams).
-func runCtxCase(run *ev.Run, fl *inflight, worker, caseIdx, router int) {
-	r := run.CaseRand(streamCtxWorld, caseIdx)
-	v := drawVariant(r)
-	var x *world
-	if pi := mon.Catch(func() {
-		var err error
-		x, err = newWorld(run, r, v, router, caseIdx, worker)
-		if err != nil {
-			run.HarnessBug(fmt.Sprintf("fronthttp: ctx-end world %s cannot be built: %v", v, err))
-			x = nil
-		}
-	}); pi != nil {
-		run.HarnessBug(fmt.Sprintf("fronthttp: building ctx-end world %s panicked: %s at %s", v, pi.Value, pi.Frame))
-		return
-	}
-	if x == nil {
-		return
-	}
-	x.fl = fl
-	x.fr = run.CaseRand(streamStorErr, caseIdx)
-	x.cr = run.CaseRand(streamCtxEnd, caseIdx)
-	run.Count("http:ctx_end_world_caps", v.Caps.String())
-	if pi := mon.Catch(func() {
-		x.harvest()
-		x.ctxEndSweep(router)
-	}); pi != nil {
-		run.HarnessBug(fmt.Sprintf("fronthttp: ctx-end case %d router %s: %s at %s\n%s", caseIdx, x.rname, pi.Value, pi.Frame, trim(pi.Stack, 3000)))
-	}
+	return name
 }
 
 // ctxEndSweep: ctxEndPerCase requests, valid as drawn, each served under a context that ends at a drawn position.
 func (x *world) ctxEndSweep(router int) {
-	cr, run, rn := x.cr, x.run, x.rname
+	cr, run, rn, st := x.cr, x.run, x.rname, x.w.Store
 	for i := 0; i < ctxEndPerCase; i++ {
 		lit := &ctxEndLit{K: -1, Storage: ctxStorage[cr.IntN(len(ctxStorage))]}
 		switch i % 8 {
@@ -161,6 +225,9 @@ func (x *world) ctxEndSweep(router int) {
 		default:
 			lit.Kind = "cancelled-at-point"
 		}
+		if lit.Storage != "oblivious" {
+			lit.From = 1
+		}
 		// a third of the requests go to the six grants of the token endpoint, the others to any template
 		n := cr.IntN(6)
 		if cr.IntN(3) > 0 {
@@ -169,30 +236,47 @@ func (x *world) ctxEndSweep(router int) {
 		if strings.HasSuffix(lit.Kind, "-at-point") {
 			probe := x.sweepDraftN(n).render(x)
 			x.stats.fuzz++
-			var names []string
-			x.execWith(probe, router, func(h http.Handler, hr *http.Request) *opdrv.Resp {
-				var resp *opdrv.Resp
-				names = sched.Trace(func() { resp = opdrv.Serve(h, hr, router) })
-				return resp
+			actor := &ctxActor{at: -1, record: true}
+			resp := x.execWith(probe, router, func(h http.Handler, hr *http.Request) *opdrv.Resp {
+				return opdrv.Serve(h, hr.WithContext(context.WithValue(context.Background(), ctxActorKey{}, actor)), router)
 			})
-			run.Count("http:ctx_end_probe_yield_points:"+rn, fmt.Sprintf("%02d-%02d", len(names)/10*10, len(names)/10*10+9))
-			if len(names) == 0 {
-				// not routed on this router (nil legacy endpoint): no library function with a span ran
-				run.Count("http:ctx_end:"+rn, "probe passed no yield point (request not routed)")
+			tr := mergeTrace(actor, st.JournalSince(resp.SeqStart))
+			run.Count("http:ctx_end_probe_positions:"+rn, fmt.Sprintf("%02d-%02d", len(tr)/10*10, len(tr)/10*10+9))
+			if len(tr) == 0 {
+				// not routed on this router (nil legacy endpoint): no library function with a span ran, no storage call
+				run.Count("http:ctx_end:"+rn, "probe passed no position (request not routed)")
 				continue
 			}
 			var storageIdx []int
-			for j, name := range names {
-				if strings.HasPrefix(name, "storage:") {
+			names := make([]string, len(tr))
+			for j, p := range tr {
+				names[j] = p.name
+				if strings.HasPrefix(p.name, "storage:") {
 					storageIdx = append(storageIdx, j)
 				}
 			}
+			var t tracePoint
 			if len(storageIdx) > 0 && cr.IntN(3) > 0 {
-				lit.K = storageIdx[cr.IntN(len(storageIdx))]
+				t = tr[storageIdx[cr.IntN(len(storageIdx))]]
+				// the entrance of a storage call: the context ends at the last span point before it and the storage
+				// reports it from this call on
+				if lit.Storage == "oblivious" {
+					lit.Storage = ctxStorage[1+cr.IntN(2)]
+				}
+				lit.K, lit.From = t.span, t.sincePrv+1
 			} else {
-				lit.K = cr.IntN(len(names))
+				t = tr[cr.IntN(len(tr))]
+				if strings.HasPrefix(t.name, "storage:") {
+					// drawn among all positions with an oblivious storage: the span point before it
+					lit.K = t.span
+					if lit.From > 0 {
+						lit.From = t.sincePrv + 1
+					}
+				} else {
+					lit.K = t.span
+				}
 			}
-			lit.Planned = names[lit.K]
+			lit.Target = t.name
 			if len(names) > 120 {
 				names = names[:120]
 			}
@@ -215,37 +299,21 @@ func (x *world) execCtxEnd(q *Req, router int, lit *ctxEndLit) {
 	plan := func() *vstore.FaultPlan {
 		switch lit.Storage {
 		case "reports-ctx-err":
-			return &vstore.FaultPlan{From: 1, Err: ctxErr}
+			return &vstore.FaultPlan{From: lit.From, Err: ctxErr}
 		case "reports-wrapped-ctx-err":
-			return &vstore.FaultPlan{From: 1, Err: fmt.Errorf("storage: query: %w", ctxErr)}
+			return &vstore.FaultPlan{From: lit.From, Err: fmt.Errorf("storage: query: %w", ctxErr)}
 		}
 		return nil
 	}
-	blocked := false
 	resp := x.execWith(q, router, func(h http.Handler, hr *http.Request) *opdrv.Resp {
 		defer st.Arm(nil)
 		var ctx context.Context
 		var cancel context.CancelFunc
-		switch lit.Kind {
-		case "cancelled-on-arrival":
-			ctx, cancel = context.WithCancel(context.Background())
-			cancel()
-		case "expired-on-arrival":
-			ctx, cancel = context.WithDeadline(context.Background(), time.Now().Add(-time.Second))
-		case "deadline-at-point":
-			ctx, cancel = context.WithDeadline(context.Background(), time.Now().Add(ctxDeadline))
-		default:
-			ctx, cancel = context.WithCancel(context.Background())
-		}
-		defer cancel()
-		hr = hr.WithContext(ctx)
-		if lit.K < 0 {
-			lit.Reached, lit.EndSeq = true, mon.Seq()
+		ended := func(name string) {
+			lit.Reached, lit.At, lit.EndSeq = true, name, mon.Seq()
 			st.Arm(plan())
-			return opdrv.Serve(h, hr, router)
 		}
-		var resp *opdrv.Resp
-		res := sched.Preempt(lit.K, func() { resp = opdrv.Serve(h, hr, router) }, func() {
+		actor := &ctxActor{at: lit.K, fire: func(name string) {
 			if lit.Kind == "deadline-at-point" {
 				lit.Early = ctx.Err() != nil
 				<-ctx.Done()
@@ -253,40 +321,52 @@ func (x *world) execCtxEnd(q *Req, router int, lit *ctxEndLit) {
 			} else {
 				cancel()
 			}
-			lit.EndSeq = mon.Seq()
-			st.Arm(plan())
-		}, ctxPatience)
-		lit.Reached, lit.At, blocked = res.Reached, res.At, res.Blocked
-		return resp
+			ended(name)
+		}}
+		base := context.WithValue(context.Background(), ctxActorKey{}, actor)
+		switch lit.Kind {
+		case "expired-on-arrival":
+			ctx, cancel = context.WithDeadline(base, time.Now().Add(-time.Second))
+		case "deadline-at-point":
+			if lit.K < 0 {
+				ctx, cancel = context.WithDeadline(base, time.Now().Add(-time.Second))
+			} else {
+				ctx, cancel = context.WithDeadline(base, time.Now().Add(ctxDeadline))
+			}
+		default:
+			ctx, cancel = context.WithCancel(base)
+		}
+		defer cancel()
+		if lit.K < 0 {
+			if ctx.Err() == nil {
+				cancel()
+			}
+			ended("arrival")
+		}
+		return opdrv.Serve(h, hr.WithContext(ctx), router)
 	})
-	if blocked {
-		run.Inconclusive(fmt.Sprintf("fronthttp: ending the context of %s at yield point %d did not finish within %s", q.brief(), lit.K, ctxPatience))
-		return
-	}
 	endpoint := x.endpointOf(router, pathOf(q))
 	outcome := fmt.Sprint(resp.Status)
 	if resp.Panic != nil {
 		outcome = "panic"
 	}
 	if !lit.Reached {
-		// the request passed fewer yield points than its probe: it ran undisturbed (judged as such)
+		// the request passed fewer span points than its probe: it ran undisturbed (and was judged as such)
 		run.Count("http:ctx_end:"+rn, lit.Kind+"|finished before its point")
 		return
-	}
-	at := lit.At
-	if lit.K < 0 {
-		at = "arrival"
 	}
 	if lit.Early {
 		run.Count("http:ctx_end:"+rn, "deadline fired before the point was reached (position not forced)")
 	}
-	run.Count("http:ctx_end:"+rn, lit.Kind+"|"+lit.Storage+"|"+pointKind(at)+" -> "+outcome)
-	run.Count("http:ctx_end_point:"+rn, endpoint+"|"+at+" -> "+outcome)
+	position := pointKind(lit.At)
+	if lit.From > 1 || strings.HasPrefix(lit.Target, "storage:") && lit.From == 1 {
+		position = "storage"
+	}
+	run.Count("http:ctx_end:"+rn, lit.Kind+"|"+lit.Storage+"|"+position+" -> "+outcome)
+	run.Count("http:ctx_end_at:"+rn, endpoint+"|"+lit.At+" -> "+outcome)
 	run.Observed("http:ctx-end:kind:" + lit.Kind + ":" + rn)
 	run.Observed("http:ctx-end:storage:" + lit.Storage + ":" + rn)
-	if lit.K >= 0 {
-		run.Observed("http:ctx-end:at-point-kind:" + pointKind(at) + ":" + rn)
-	}
+	run.Observed("http:ctx-end:position:" + position + ":" + rn)
 	if resp.FirstWriteSeq > lit.EndSeq && resp.Status != 0 {
 		run.Observed("http:ctx-end:answered-after-the-end:" + rn)
 	}
@@ -311,7 +391,7 @@ func (x *world) execCtxEnd(q *Req, router int, lit *ctxEndLit) {
 			run.Observed("http:ctx-end:device-lookup:" + which + ":" + rn)
 		}
 	}
-	run.Distinct(fmt.Sprintf("http|%s|ctx-end|%s|%s|%s|%s|%s", rn, q.Op, lit.Kind, lit.Storage, at, outcome))
+	run.Distinct(fmt.Sprintf("http|%s|ctx-end|%s|%s|%s|%d|%s|%s", rn, q.Op, lit.Kind, lit.Storage, lit.From, lit.At, outcome))
 	if resp.Status >= 500 || resp.Status == 0 || endpoint == "token" && resp.Status < 400 {
 		run.SampleKind("http:ctx-end", map[string]any{"router": rn, "request": q, "response": litResp(resp)})
 	}
